@@ -17,7 +17,8 @@ script line:   <head> | <task> ; <task> ; ...
   task i is sent by client goroutine g at virtual instant `time` (or as soon as g's previous Send returned).
   park s:o:u = the o-th call of ants.VerifHook(site s), s ∈ 1..4, blocks until instant u.
 monitor input:  <script line> TAB <observation of the real code>
-output:         ok | ok overflow | reject model-allows: <outcome> || <outcome> ...
+output:         ok | ok overflow | ok unchecked <why> | reject model-allows: <outcome> || <outcome> ...
+                (after 40 rejected lines the rest is answered `ok unchecked`; `stress …` lines are oracle-only)
 The monitor explores EVERY interleaving of the model (Got.Model.Ants.step) under maximal progress
 for the scripted environment and accepts iff the observation is one of the possible final outcomes.
 `drv_ants outcomes` prints the set of model outcomes for each script line instead.
@@ -470,19 +471,28 @@ def explore (sc : Scen) (limit : Nat) (ob : Option Obs := none) : List String ×
 
 def exploreLimit : Nat := 400000
 
-def monitorLine (line : String) : String :=
+/-- once this many lines were rejected the tree evidently differs from the model; the remaining lines are not explored
+    (`ok unchecked`: judged by the property oracle only) so that a check of a broken tree stays within minutes -/
+def rejectBudget : Nat := 40
+
+/-- monitor state = number of rejected lines so far -/
+def monitorLine (rejects : Nat) (line : String) : Nat × String :=
   match line.splitOn "\t" with
   | [script, impl] =>
+    if script.startsWith "stress " then (rejects, "ok unchecked oracle-only")
+    else if rejects ≥ rejectBudget then (rejects, "ok unchecked reject-budget-exhausted")
+    else
     match parseScen script with
-    | none => "reject bad-script"
+    | none => (rejects + 1, "reject bad-script")
     | some sc =>
       let (fin, ovf) := explore sc exploreLimit (some (parseObs impl))
-      if fin.contains impl then "ok"
-      else if ovf then "ok overflow"
-      else
+      if fin.contains impl then (rejects, "ok")
+      else if ovf then (rejects, "ok overflow")
+      else if rejects < 3 then
         let (all, _) := explore sc 20000
-        "reject model-allows: " ++ " || ".intercalate (all.take 3)
-  | _ => "reject bad-line"
+        (rejects + 1, "reject model-allows: " ++ " || ".intercalate (all.take 3))
+      else (rejects + 1, "reject (model outcomes shown for the first rejected lines only)")
+  | _ => (rejects + 1, "reject bad-line")
 
 def outcomesLine (nopor : Bool) (line : String) : String :=
   match parseScen ((line.splitOn "\t").headD "") with
@@ -494,7 +504,10 @@ def outcomesLine (nopor : Bool) (line : String) : String :=
     s!"{fin.length}{if ovf then " overflow" else ""} states={n}: " ++ " || ".intercalate fin
 
 def main (args : List String) : IO Unit := do
-  let f := if args.contains "outcomes" then outcomesLine (args.contains "nopor") else monitorLine
-  lineLoop (← IO.getStdin) (← IO.getStdout) (fun (_ : Unit) l => ((), if l.isEmpty then "" else f l)) ()
+  if args.contains "outcomes" then
+    lineLoop (← IO.getStdin) (← IO.getStdout)
+      (fun (_ : Unit) l => ((), if l.isEmpty then "" else outcomesLine (args.contains "nopor") l)) ()
+  else
+    lineLoop (← IO.getStdin) (← IO.getStdout) (fun (n : Nat) l => if l.isEmpty then (n, "") else monitorLine n l) 0
 
 end Got.Drv.Ants
